@@ -409,7 +409,7 @@ Definition p_fcall : parser expr :=
 Definition p_paren : parser expr :=
   fun s => match eat 40 s with
            | Some r => match pexpect opt_e r with
-                       | POk e r' => match eat 41 r' with Some r'' => POk e r'' | None => PFatal end
+                       | POk e r' => match eat 41 (skip_spaces r') with Some r'' => POk e r'' | None => PFatal end
                        | PFail => PFatal
                        | PFatal => PFatal
                        end
@@ -421,7 +421,7 @@ Definition p_atomic : parser expr :=
 
 Definition p_unary : parser expr :=
   fun s => match eat 33 s with
-           | Some r => pmap ENot (pexpect p_atomic) r
+           | Some r => pmap ENot (pexpect p_atomic) (skip_spaces r)
            | None => p_atomic s
            end.
 
@@ -592,8 +592,8 @@ Fixpoint p_filter (fuel : nat) : parser (option filter) :=
                  | PFail =>
                      (filter_atom <|>
                       (fun s => match eat 40 s with
-                                | Some r => match high r with
-                                            | POk x r' => match eat 41 r' with Some r'' => POk x r'' | None => PFatal end
+                                | Some r => match high (skip_spaces r) with
+                                            | POk x r' => match eat 41 (skip_spaces r') with Some r'' => POk x r'' | None => PFatal end
                                             | PFail => PFail
                                             | PFatal => PFatal
                                             end
@@ -645,11 +645,11 @@ Inductive lstage : Type :=
 | LCountDistinct_bad                        (* count_distinct with 0 or >1 arguments *)
 | LAlias (name : str).
 
-(** single_arg: "(" ws* expr ws* ")" with everything after "(" required *)
+(** single_arg: "(" ws* expr ws* ")" with everything after "(" required (whitespace before ")" since 4f14fd7) *)
 Definition single_arg : parser expr :=
   fun s => match eat 40 s with
            | Some r => match pexpect opt_expr (skip_spaces r) with
-                       | POk e r' => match eat 41 r' with Some r'' => POk e r'' | None => PFatal end
+                       | POk e r' => match eat 41 (skip_spaces r') with Some r'' => POk e r'' | None => PFatal end
                        | _ => PFatal
                        end
            | None => PFail
